@@ -361,12 +361,15 @@ def prov_to_dot(
             if len(nodes) < 2:  # too few elements for a relation?
                 continue  # cannot draw this
 
+            # The edges of a relation are statements of the root graph: an edge
+            # statement inside a cluster makes Graphviz draw both of its end
+            # nodes inside that cluster, whichever scope they were declared in
             if add_nary_elements or add_attribute_annotation:
                 # a blank node for n-ary relations or the attribute annotation
                 bnode = _get_bnode()
 
                 # the first segment
-                dot.add_edge(
+                maindot.add_edge(
                     pydot.Edge(
                         _get_node(nodes[0], inferred_types[0]),
                         bnode,
@@ -377,7 +380,7 @@ def prov_to_dot(
                 style = dict(style)  # copy the style
                 del style["label"]  # not showing label in the second segment
                 # the second segment
-                dot.add_edge(
+                maindot.add_edge(
                     pydot.Edge(bnode, _get_node(nodes[1], inferred_types[1]), **style)
                 )
                 if add_nary_elements:
@@ -388,7 +391,7 @@ def prov_to_dot(
                     ):
                         if node is not None:
                             style["label"] = attr_name.localpart
-                            dot.add_edge(
+                            maindot.add_edge(
                                 pydot.Edge(
                                     bnode, _get_node(node, inferred_type), **style
                                 )
@@ -397,7 +400,7 @@ def prov_to_dot(
                     _attach_attribute_annotation(bnode, rec)
             else:
                 # show a simple binary relations with no annotation
-                dot.add_edge(
+                maindot.add_edge(
                     pydot.Edge(
                         _get_node(nodes[0], inferred_types[0]),
                         _get_node(nodes[1], inferred_types[1]),
